@@ -37,6 +37,9 @@ func (a *ANSIFragmentFormatter) Format(f *Fragment, orderedTermLocations TermLoc
 		if termLocation == nil {
 			continue
 		}
+		if termLocation.End < termLocation.Start {
+			continue // inverted location, slicing with it panics
+		}
 		if termLocation.Start < curr {
 			continue
 		}
